@@ -215,7 +215,8 @@ def render(rng, tokens, shuffle=True, extra_ws=True):
         rng.shuffle(keys)
     ws = (lambda: rng.choice(["", " ", "\n", "  ", "\t"])) if extra_ws else (lambda: "")
     parts = ["%s%s%s:%s%s" % (ws(), json.dumps(k), ws(), ws(), tokens[k]) for k in keys]
-    return "{" + ",".join(parts) + ws() + "}"
+    from .gen import respell_json_strings
+    return respell_json_strings(rng, "{" + ",".join(parts) + ws() + "}")
 
 
 def size_class(n):
